@@ -133,6 +133,19 @@ PROPS = {
         "assumptions": ["structural equality is decided by /repo's own `equal` (C05)"],
         "partial": ["that the evaluated factory denotes the source service is established by the implementation-level oracle on generated programs only; theorems: scoping of the emitted statements for every program, closure and totality of the analysis, ident never yields a reserved word and is injective"],
     },
+    "C18": {
+        "profiles": ["debug"],
+        "rule": "names: keywords, words that cannot be raw identifiers, every case shape (camel, snake, leading / trailing / doubled underscores, digits), non-identifiers, as record fields (snake case) and variant tags (upper camel case): the identifier and the serde rename are read off the emitted item with syn; "
+                "programs from the C14 generator (anonymous nested records / variants / functions / services at several paths, recursion needing Box, services given by name, constructors), every third one with definition and field names that collide after case conversion, prelude names and keywords: the binding (canister_call template) is parsed with syn, every item is read back as the Candid type the derive macro computes "
+                "(label = serde rename else identifier without r#; newtype and unit rules; define_function! / define_service!), every definition the service uses must have a structurally equal item and every method the same argument and result types; every request is non-trivial; distinct = distinct request lines",
+        "trusted": [
+            "the harness reads the emitted Rust with syn 2 and applies the derive macro's rules as read from candid_derive/src/derive.rs (rename / unraw, newtype inlining, unit = null, tuple fields by position); the emitted code is not compiled",
+            "Rust keyword tables and the renamed flag of the cannot-be-raw branch are re-extracted from identifier.rs on every run",
+            "two readings are compared: the one the binding intends (`_5_` = id 5, `(T,)` struct = one-field record) and the derive macro's; a difference between them is one of the recorded findings",
+        ],
+        "assumptions": ["binding configuration files (rename, use_type, attributes) are not exercised", "structural equality is decided by /repo's own `equal` (C05)"],
+        "partial": ["equality of the emitted types with the source is established by the implementation-level oracle on generated programs only; theorem: the derive label of every emitted field / variant is the source label, for all names"],
+    },
     "C19": {
         "profiles": ["debug"],
         "rule": "programs from the C14 generator printed as .did text with doc comments (plain text, comment terminators and openers, quotes, backticks, template and handlebars syntax, attribute-like text, non-ASCII) before definitions and the actor; a quarter of the definitions renamed to keywords and prelude names of the target languages; hostile method names in any service; with and without a main service, with and without init args; "
